@@ -303,7 +303,10 @@ def c18(res, tier, seed, replay):
             for line in f:
                 if '"ev":"Case"' not in line and '"ev":"Rand"' not in line:
                     continue
-                e = json.loads(line)
+                try:
+                    e = json.loads(line)
+                except ValueError:
+                    continue   # (a line cut short by a driver that died: reporting only, the verdict is TLC's)
                 if e["ev"] == "Case":
                     lab = cases[e["cid"] - 1]["lab"]
                 elif e["ev"] == "Rand":
